@@ -3,6 +3,7 @@ import GixModel.Lemmas.C09Midx
 import GixModel.Lemmas.C09MidxWinner
 import GixModel.Lemmas.C09Bytes
 import GixModel.Lemmas.C09Total
+import GixModel.Lemmas.C09V1
 /-
 C09 — Pack and multi-pack index lookups agree with a linear scan.  PROPERTY THEOREMS ONLY.
 
@@ -326,6 +327,68 @@ example : (File.at (V2_SIGNATURE ++ be32 2 ++ ([5] ++ List.replicate 255 0).flat
 -- … and a file too short for the two objects its fan-out announces
 example : (File.at (V2_SIGNATURE ++ be32 2 ++ (List.replicate 256 2).flatMap be32 ++ List.replicate 40 0)).map
     (fun r => match r with | .ok _ => none | .error e => some e) = some (some .corrupt) := by decide +kernel
+
+/-! ### version-1 index files (written by git only) -/
+
+/-- V1 byte-level round trip: the file `fan-out ++ (offset32 ++ id)* ++ checksums` opens as a V1
+index of `recs.length` objects and the V1 branches of the accessors give back every id and offset
+(there are no CRCs in V1). -/
+theorem v1_roundtrip (fan : List Nat) (recs : List (Nat × Bytes)) (ph ih : Bytes) (h : V1Ok fan recs)
+    (hph : ph.length = 20) (hih : ih.length = 20) :
+    ∃ f, File.at (encodeV1 fan recs ph ih) = some (.ok f) ∧ f.v2 = false ∧ f.fan = fan ∧
+      f.numObjects = recs.length ∧
+      ∀ i (hi : i < recs.length), f.oidAt i = some recs[i].2 ∧ f.offsetAt i = some recs[i].1 ∧
+        f.crcAt i = some none :=
+  ⟨_, File.at_encodeV1 fan recs ph ih h hph hih, rfl, rfl, rfl,
+    fun i hi => ⟨v1_oidAt fan recs ph ih h i hi, v1_offsetAt fan recs ph ih h i hi, rfl⟩⟩
+
+-- non-vacuity: two objects, one with the largest offset V1 can hold
+def exV1Recs : List (Nat × Bytes) :=
+  [(12, [3,1,2,3,4,5,6,7,8,9,10,11,12,13,14,15,16,17,18,19]), (4294967295, [0xfe,1,2,3,4,5,6,7,8,9,10,11,12,13,14,15,16,17,18,19])]
+def exV1Fan : List Nat := (List.range 256).map (fun b => countLe b ((exV1Recs.map (·.2)).map hd))
+example : V1Ok exV1Fan exV1Recs :=
+  ⟨by decide +kernel, by decide +kernel, by decide +kernel, by decide +kernel, by decide +kernel, by decide +kernel⟩
+example : (encodeV1 exV1Fan exV1Recs (List.replicate 20 1) (List.replicate 20 2)).length = 1024 + 2 * 24 + 40 := by
+  decide +kernel
+
+/-- …and on a V1 file whose ids ascend and whose fan-out holds the cumulative counts, both lookups
+agree with the linear scan, exactly as for V2. -/
+theorem v1_lookup_eq_linear (fan : List Nat) (recs : List (Nat × Bytes)) (ph ih : Bytes) (h : V1Ok fan recs)
+    (hph : ph.length = 20) (hih : ih.length = 20)
+    (hsorted : SortedIds (recs.map (·.2)))
+    (hfan : fan = (List.range 256).map (fun b => countLe b ((recs.map (·.2)).map hd)))
+    (hsmall : recs.length < 2147483648) (id : Bytes) (hid : id.length = 20) :
+    ∃ f, File.at (encodeV1 fan recs ph ih) = some (.ok f) ∧
+      (∃ r, f.lookup id = some r ∧ (∀ i, r = some i ↔ (recs[i]?).map (·.2) = some id) ∧
+        (r = none ↔ ∀ rc ∈ recs, rc.2 ≠ id)) ∧
+      (∀ hl p, Prefix.new id hl = some p → ∃ a b, a ≤ b ∧ b ≤ recs.length ∧
+        (∀ i (hi : i < recs.length), PrefixMatches id hl recs[i].2 ↔ a ≤ i ∧ i < b) ∧
+        f.lookupPrefix p true = some (classify a b, some (candRange a b)) ∧
+        f.lookupPrefix p false = some (classify a b, none)) := by
+  obtain ⟨f, hf, hv, hff, hn, hacc⟩ := v1_roundtrip fan recs ph ih h hph hih
+  have hok : TableOk f.fan f.oidAt (recs.map (·.2)) :=
+    { sorted := hsorted
+      len20 := by intro x hx; obtain ⟨r, hr, rfl⟩ := List.mem_map.mp hx; exact h.ids20 r hr
+      fanOk := by rw [hff]; exact hfan
+      small := by simpa using hsmall
+      get := by intro i hi; have := (hacc i (by simpa using hi)).1; simpa using this }
+  refine ⟨f, hf, ?_, ?_⟩
+  · obtain ⟨r, hr, h1, h2⟩ := lookupWith_spec hok id hid
+    refine ⟨r, hr, ?_, ?_⟩
+    · intro i; rw [h1 i, List.getElem?_map]
+    · rw [h2]
+      constructor
+      · intro hn' rc hrc heq; exact hn' (List.mem_map.mpr ⟨rc, hrc, heq⟩)
+      · intro hn' hm; obtain ⟨rc, hrc, heq⟩ := List.mem_map.mp hm; exact hn' rc hrc heq
+  · intro hl p hp
+    obtain ⟨a, b, hab, hbn, hm, hw, hwo⟩ := lookupPrefixWith_spec hok hp hid
+    have hlen : (recs.map (·.2)).length = recs.length := by simp
+    refine ⟨a, b, hab, by omega, ?_, ?_, ?_⟩
+    · intro i hi
+      have := hm i (by rw [hlen]; exact hi)
+      simpa using this
+    · rw [File.lookupPrefix, hn, ← hlen]; exact hw
+    · rw [File.lookupPrefix, hn, ← hlen]; exact hwo
 
 /-! ### multi-pack index -/
 
